@@ -6,9 +6,9 @@
    what remains unproved (overlapping roots on the read side, fs.RootPath's own Lstat calls, which
    are refuted) is listed in props/C14.json. *)
 From Coq Require Import List NArith Bool.
-From FS Require Import Sx Model.Path Model.Fs Model.RootPath Model.CopyFs Model.CopyFsSpec
+From FS Require Import Sx Model.Path Model.Fs Model.RootPath Model.CopyFs Model.CopyFsSpec Model.CopyFsMeta
   Proofs.Lex Proofs.PathP Proofs.CleanP Proofs.RootPathP Proofs.RootPathWitnessP Proofs.CopyContainedP
-  Proofs.CopyFsWitnessP.
+  Proofs.CopyFsWitnessP Proofs.CopyFsMetaP.
 Import ListNotations.
 
 (* Whatever the argument (any number of "..", empty components, dots, separators), the
@@ -201,6 +201,27 @@ Proof.
   - intros fi ow s' r. exact (dest_symlink_reported c f0 dr dcs cs x d i t m W H1 H2 H3 H4 H5 H6 H7 H8 fi ow s' r).
 Qed.
 Print Assumptions dest_symlink_never_followed_partial.
+
+(* The metadata calls.  The copier model changes ownership, times and xattrs only through
+   sys_lchown / sys_utimens / sys_lsetxattr (in the real code: os.Lchown, utimensat with
+   AT_SYMLINK_NOFOLLOW, LSetxattr), and each of these changes nothing but the inode the path names
+   WITHOUT following a final symlink.  chmod, which follows, is behind a "not a symlink" guard:
+   copyFileInfo of a symlink source is exactly Lchown + no-follow Utimes (no chmod), and
+   copyDirectoryOnly, which chmods an existing destination directory, reports a symlink found there
+   and changes nothing.  (The flavours of the REAL calls are compared with this by kind 1405, which
+   runs copy.Copy under strace.) *)
+Theorem metadata_calls_nofollow :
+  (forall c f p u g f' r, sys_lchown c f p u g = (f', r) -> nofollow_call c f p f') /\
+  (forall c f p t f' r, sys_utimens c f p t = (f', r) -> nofollow_call c f p f') /\
+  (forall c f p k v f' r, sys_lsetxattr c f p k v = (f', r) -> nofollow_call c f p f') /\
+  (forall c o fi name, kind_is_link fi = true ->
+     forall s, copy_file_info c o fi name s = copy_file_info_link c o fi name s) /\
+  (forall c dst fi ow s i t m,
+     snd (sys_lstat c (s_fs s) dst) = RStat i {| i_kind := KLink t; i_meta := m |} ->
+     exists e, copy_directory_only c dst fi ow s =
+               ({| s_fs := s_fs s; s_links := s_links s; s_parents := s_parents s; s_reads := s_reads s |}, inr e)).
+Proof. exact metadata_calls_nofollow_proof. Qed.
+Print Assumptions metadata_calls_nofollow.
 
 (* non-vacuity: the witness of the hard-link-path escape on the model of the repaired code.
    /o/h (inode 3, mode 0600) is outside; Copy("/s", "?/?" = p/h q/h r/g, "/d", "/") succeeds, the
